@@ -44,7 +44,7 @@ VictimIdx(s) == IF policy = "lifo" THEN Len(s) - 1 ELSE 1
 
 Put(c, p, v, ok, dks, dvs) ==
     /\ ok
-    /\ v \notin vdead /\ \A i \in 1..Len(order) : order[i].v # v
+    /\ dv => (v # 0 /\ v \notin vdead /\ \A i \in 1..Len(order) : order[i].v # v)   \* as in LinkedHash!Put
     /\ LET i == IdxOf(c)
            new == [c |-> c, p |-> p, v |-> v]
            K1 == IF i # 0 /\ order[i].p # p THEN {KeyOf(order[i])} ELSE {}       \* replaced entry
